@@ -74,6 +74,46 @@ Section SubscribeProofs.
     - destruct (on_event (ss_exec s) e). cbn. split; discriminate.
   Qed.
 
+  (* any history of __anext__ calls of a sequential consumer: after j calls the
+     consumer holds exactly the first j specified results (then only "ended"
+     answers), the source has delivered exactly min j n items -- nothing is
+     read ahead, nothing is skipped -- and the rest of the source is intact *)
+  Lemma pulls_spec : forall j (s : sub_state cache event err),
+    cache_inv (es_cache (ss_exec s)) ->
+    let n := length (ss_source s) in
+    snd (pulls cache event data err run j s) =
+      map Some (firstn j (map spec_result (ss_source s))) ++ repeat None (j - n) /\
+    ss_source (fst (pulls cache event data err run j s)) = skipn j (ss_source s) /\
+    ss_consumed (fst (pulls cache event data err run j s)) = ss_consumed s + Nat.min j n /\
+    cache_inv (es_cache (ss_exec (fst (pulls cache event data err run j s)))).
+  Proof.
+    induction j as [|j IH]; intros s Hinv.
+    - cbn. repeat split; [lia|exact Hinv].
+    - cbn [SubscribeModel.pulls]. unfold SubscribeModel.anext.
+      destruct s as [x src k tr]. cbn [ss_exec ss_source ss_consumed ss_trace] in *.
+      destruct src as [|e rest].
+      + specialize (IH (SubState x [] k (tr ++ [Ended])) Hinv).
+        cbn [ss_exec ss_source ss_consumed ss_trace length] in IH.
+        destruct (pulls cache event data err run j (SubState x [] k (tr ++ [Ended]))) as [s2 rs].
+        cbn [fst snd] in *. destruct IH as (Hr & Hs & Hc & Hi).
+        cbn [length]. repeat split.
+        * rewrite Hr. cbn [map]. rewrite firstn_nil. cbn. rewrite Nat.sub_0_r. destruct j; reflexivity.
+        * rewrite Hs. destruct j; reflexivity.
+        * rewrite Hc. rewrite !Nat.min_0_r. reflexivity.
+        * exact Hi.
+      + destruct (on_event_spec x e Hinv) as [Hinv' Hr0].
+        destruct (on_event x e) as [x' r]. cbn [fst snd] in Hinv', Hr0.
+        specialize (IH (SubState x' rest (S k) (tr ++ [Pulled k; Emitted k])) Hinv').
+        cbn [ss_exec ss_source ss_consumed ss_trace] in IH.
+        destruct (pulls cache event data err run j (SubState x' rest (S k) (tr ++ [Pulled k; Emitted k]))) as [s2 rs].
+        cbn [fst snd] in *. destruct IH as (Hr & Hs & Hc & Hi).
+        cbn [length]. repeat split.
+        * rewrite Hr, Hr0. reflexivity.
+        * rewrite Hs. reflexivity.
+        * rewrite Hc. cbn [Nat.min]. lia.
+        * exact Hi.
+  Qed.
+
   Theorem stream_spec s :
     cache_inv (es_cache (ss_exec s)) ->
     snd (drain s) = spec_stream cache event data err run c_fresh (ss_source s).
@@ -159,6 +199,7 @@ Section SubscribeProofs.
       | RefVariables => sq_variables_ok q = false
       | RefNotSubscription => sq_is_subscription q = false
       | RefRuntime => sq_runtime_streams q = false
+      | RefDirectiveArguments => sq_root_collect_ok q = false
       | RefFieldCount => sq_root_fields q <> 1
       | RefNoFieldDef => sq_field_defined q = false
       | RefNoResolver => sq_has_subscription_resolver q = false
@@ -172,6 +213,8 @@ Section SubscribeProofs.
     destruct (sq_is_subscription q) eqn:E3; cbn [negb].
     2:{ intros H; inversion H; subst. repeat split; reflexivity. }
     destruct (sq_runtime_streams q) eqn:E4; cbn [negb].
+    2:{ intros H; inversion H; subst. repeat split; reflexivity. }
+    destruct (sq_root_collect_ok q) eqn:E4b; cbn [negb].
     2:{ intros H; inversion H; subst. repeat split; reflexivity. }
     destruct (sq_root_fields q =? 1) eqn:E5; cbn [negb].
     2:{ intros H; inversion H; subst. repeat split; try reflexivity. apply Nat.eqb_neq. exact E5. }
@@ -189,22 +232,26 @@ Section SubscribeProofs.
        subscribe q events = (Refused RefNotSubscription, false, 0)) /\
     (sq_is_subscription q = true -> sq_runtime_streams q = false ->
        subscribe q events = (Refused RefRuntime, false, 0)) /\
-    (sq_is_subscription q = true -> sq_runtime_streams q = true -> sq_root_fields q <> 1 ->
+    (sq_is_subscription q = true -> sq_runtime_streams q = true -> sq_root_collect_ok q = false ->
+       subscribe q events = (Refused RefDirectiveArguments, false, 0)) /\
+    (sq_is_subscription q = true -> sq_runtime_streams q = true -> sq_root_collect_ok q = true ->
+     sq_root_fields q <> 1 ->
        subscribe q events = (Refused RefFieldCount, false, 0)) /\
-    (sq_is_subscription q = true -> sq_runtime_streams q = true -> sq_root_fields q = 1 ->
-     sq_field_defined q = true -> sq_has_subscription_resolver q = false ->
+    (sq_is_subscription q = true -> sq_runtime_streams q = true -> sq_root_collect_ok q = true ->
+     sq_root_fields q = 1 -> sq_field_defined q = true -> sq_has_subscription_resolver q = false ->
        subscribe q events = (Refused RefNoResolver, false, 0)) /\
-    (sq_is_subscription q = true -> sq_runtime_streams q = true -> sq_root_fields q = 1 ->
-     sq_field_defined q = true -> sq_has_subscription_resolver q = true ->
+    (sq_is_subscription q = true -> sq_runtime_streams q = true -> sq_root_collect_ok q = true ->
+     sq_root_fields q = 1 -> sq_field_defined q = true -> sq_has_subscription_resolver q = true ->
        subscribe q events = (Started (SubState (ExecState c_created []) events 0 []), true, 0)).
   Proof.
     intros H1 H2. unfold SubscribeModel.subscribe. rewrite H1, H2. cbn [negb].
     repeat split.
     - intros ->. reflexivity.
     - intros -> ->. reflexivity.
-    - intros -> -> Hn. apply Nat.eqb_neq in Hn. rewrite Hn. reflexivity.
-    - intros -> -> -> -> ->. reflexivity.
-    - intros -> -> -> -> ->. reflexivity.
+    - intros -> -> ->. reflexivity.
+    - intros -> -> -> Hn. apply Nat.eqb_neq in Hn. rewrite Hn. reflexivity.
+    - intros -> -> -> -> -> ->. reflexivity.
+    - intros -> -> -> -> -> ->. reflexivity.
   Qed.
 End SubscribeProofs.
 
